@@ -31,6 +31,8 @@ let () = run (fun case impl ->
       if even && DisplayModel.target_in_space i addr_n then begin
         (match Armv6mSpec.armv6m_enc i with
          | None -> ()   (* not encodable: cannot be the result of decoding *)
+         | Some hws when int_of_n addr_n + 2 * Stdlib.List.length hws > 0x100000000 ->
+             count "S.excluded_instruction_does_not_fit_below_2^32"   (* no such instruction can exist at that address *)
          | Some hws ->
              let expected = hex_of_bytes (Armv6mSpec.spec_bytes hws) in
              if field impl "asm=" <> "success" then specfail "text_rejected" case impl ("asm=success bytes=" ^ expected)
